@@ -111,4 +111,18 @@ def run():
                 continue            # happens to hold on this instance (e.g. real data): not a discriminating case
             if ok:
                 fails.append(f"FALSE identity #{i} ({'complex' if cplx else 'real'}) was accepted by the normaliser")
+    # a hypothesis whose left-hand side carries a diagonal power must not become a rule on the bare atom
+    k = named_ext("stk")
+    Sp = tm.sym("sp", k, k, ("diag", "real", "herm", "nonneg", "pos", "inv"))
+    Dg = tm.sym("dg", k, k, ("diag", "real", "herm", "nonneg", "pos", "inv"))
+    N2 = Normalizer([k.z >= 1])
+    try:
+        N2.add_hyp(tm.dpow(Sp, 2), Dg, "power", "lr")
+        if N2.equal(Sp, Dg)[0]:
+            fails.append("FALSE identity (s = d from s^2 = d) was accepted by the normaliser")
+        if not N2.equal(tm.mul(Sp, Sp), Dg)[0]:
+            fails.append("true identity (s s = d from s^2 = d) not derived")
+    except Exception as e:  # noqa: BLE001  (refusing such a hypothesis is sound)
+        if "diagonal power" not in str(e):
+            fails.append(f"power hypothesis: {e!r}")
     return fails
